@@ -44,7 +44,10 @@ class Attribute(dict):
 
     def __str__(self) -> str:
         """Return a htmlized representation for attributes."""
-        return " ".join(f'{key}="{value}"' for key, value in self.items())
+        # an attribute without a value (``<input disabled>``) is stored as None
+        return " ".join(
+            key if value is None else f'{key}="{value}"' for key, value in self.items()
+        )
 
 
 class Element(abc.MutableSequence):
